@@ -325,8 +325,13 @@ static void gw_cover(int tail, unsigned seed) {
     int cap = 2 * gw_nstates + tail + 8;
     int *prog = malloc(sizeof(int) * cap), *rev = malloc(sizeof(int) * cap);
     srand(seed);
-    for (int e = 0; e < gw_nedges; e++) {
+    long cover_max = getenv("GW_COVER_MAX") ? atol(getenv("GW_COVER_MAX")) : -1, done = 0;
+    /* when capped, start at a seed-dependent edge so that different seeds cover different parts */
+    int start = cover_max >= 0 && gw_nedges ? (int)((seed * 2654435761u) % (unsigned)gw_nedges) : 0;
+    for (int e0 = 0; e0 < gw_nedges; e0++) {
+        int e = (e0 + start) % gw_nedges;
         if (gw_edge_seen[e]) continue;
+        if (cover_max >= 0 && done++ >= cover_max) break;
         if (pred[gw_edges[e].src] == -2) continue;   /* unreachable */
         int n = 0, s = gw_edges[e].src;
         while (pred[s] >= 0) { rev[n++] = pred[s]; s = gw_edges[pred[s]].src; }
